@@ -170,7 +170,7 @@ class Properties(Container):
 
         nc = self.nc_get_variable(None)
         if nc is not None:
-            out.append(f"{name}.nc_set_variable('{nc}')")
+            out.append(f"{name}.nc_set_variable({nc!r})")
 
         # netCDF dimension names (bounds, interior ring, count and
         # index variables, etc.)
